@@ -58,6 +58,7 @@ TNext == \/ Ev("Tick") /\ Tick(J.ag) /\ DataIdle /\ PostOK(J)
          \/ Ev("Write") /\ (IF J.stun \/ (J.cookie /\ J.err # "") THEN WriteStun(J.ag) ELSE Write(J.ag, J.pid, J.len)) /\ PostOK(J)
          \/ Ev("PauseRead") /\ PauseRead(J.ag) /\ PostOK(J)
          \/ Ev("ResumeRead") /\ ResumeRead(J.ag) /\ PostOK(J)
+         \/ Ev("ShortRead") /\ ShortRead(J.ag) /\ PostOK(J)
          \/ Ev("DeliverData") /\ DeliverData(ToData(J.d)) /\ PostOK(J)
          \/ Ev("VanishData") /\ VanishData(ToData(J.d)) /\ PostOK(J)
          \/ Ev("DropData") /\ DropData(ToData(J.d)) /\ PostOK(J)
